@@ -50,19 +50,25 @@ class TokenName:
         self.has_zero = has_sub("zero")
         for a in C["ALL"]:
             intern(a)
+        # the complete definitions, for confirming a counter-model on a small scope (pyvc.verify._confirm_refutation)
+        ctx.__dict__.setdefault("ghost_defs", []).extend([lambda k: self.unfold_facts("num", k), lambda k: self.unfold_facts("alg", k)])
 
     def pred(self, which, k):
         t = self.tok(zint(k))
         return F_ISNUMERIC(t) if which == "num" else is_algo(t, self.C)
 
-    def unfold(self, ctx, which, i):
-        """definitional unfolding of the ghost counters at prefix length i (conservative extension)"""
+    def unfold_facts(self, which, i):
         cnt, first = (self.cnt_num, self.first_num) if which == "num" else (self.cnt_alg, self.first_alg)
         i = zint(i)
         p = self.pred(which, i)
-        ctx.assume(z3.And(cnt(0) == 0, first(0) == -1))
-        ctx.assume(z3.Implies(i >= 0, z3.And(cnt(i + 1) == cnt(i) + z3.If(p, 1, 0),
-                                             first(i + 1) == z3.If(first(i) >= 0, first(i), z3.If(p, i, -1)))))
+        return [z3.And(cnt(0) == 0, first(0) == -1),
+                z3.Implies(i >= 0, z3.And(cnt(i + 1) == cnt(i) + z3.If(p, 1, 0),
+                                          first(i + 1) == z3.If(first(i) >= 0, first(i), z3.If(p, i, -1))))]
+
+    def unfold(self, ctx, which, i):
+        """definitional unfolding of the ghost counters at prefix length i (conservative extension)"""
+        for f in self.unfold_facts(which, i):
+            ctx.assume(f)
 
     def token_in_name(self, ctx, k):
         """library fact about split/join: what a token contains, the name contains"""
